@@ -557,7 +557,7 @@ pub fn run(ctx: &mut Ctx) {
         "paused tokio clock: a deadlock surfaces as a 1 h virtual timeout".into(),
     ];
     let t = ctx.tier;
-    ctx.campaign("stream", CampaignCfg::new(t.pick(30_000, 400_000)).shards(16), strategy, run_case);
-    ctx.campaign("message", CampaignCfg::new(t.pick(60_000, 800_000)).shards(16), msg_strategy, run_msg);
-    ctx.campaign("lying-listener", CampaignCfg::new(t.pick(10_000, 200_000)).shards(16), liar_strategy, run_liar);
+    ctx.campaign("stream", CampaignCfg::new(t.pick(30_000, 4_000_000)).shards(16), strategy, run_case);
+    ctx.campaign("message", CampaignCfg::new(t.pick(60_000, 8_000_000)).shards(16), msg_strategy, run_msg);
+    ctx.campaign("lying-listener", CampaignCfg::new(t.pick(10_000, 2_000_000)).shards(16), liar_strategy, run_liar);
 }
